@@ -666,6 +666,75 @@ pub fn run_prep(cfg: &RunCfg, idx: usize, prep: Prep) -> Reporter {
 }
 
 /// quick: the original prepared state plus a seed-dependent covering sample; thorough: all of them
+/// a farm manager as it is first deployed: the pool manager's address still empty (the two
+/// managers need each other's address, so one of them is wired up after instantiation). Until the
+/// owner does that, nobody else may configure anything
+fn fresh_deployment(rep: &mut Reporter) {
+    use cw_multi_test::Executor;
+    let mut w = World::new(WorldCfg::default());
+    let owner = w.owner.clone();
+    let deployer = w.deployer.clone();
+    let code = w.code_ids[1];
+    let fresh = match w.app.instantiate_contract(
+        code,
+        deployer.clone(),
+        &fm::InstantiateMsg {
+            owner: owner.to_string(),
+            epoch_manager_addr: w.em.to_string(),
+            fee_collector_addr: w.fc.to_string(),
+            pool_manager_addr: String::new(),
+            create_farm_fee: coin(1_000, "uom"),
+            max_concurrent_farms: 3,
+            max_farm_epoch_buffer: 14,
+            min_unlocking_duration: 86_400,
+            max_unlocking_duration: 31_556_926,
+            farm_expiration_time: 2_629_746,
+            emergency_unlock_penalty: Decimal::percent(10),
+        },
+        &[],
+        "farm-manager-fresh",
+        None,
+    ) {
+        Ok(a) => a,
+        Err(e) => {
+            rep.count("unauthorised_rejected", &format!("fresh_deployment: instantiation with an empty pool manager refused ({})", crate::world::trunc(&e.root_cause().to_string(), 60)));
+            return;
+        }
+    };
+    let cfg0: Result<fm::Config, String> = w.query(&fresh, &fm::QueryMsg::Config {});
+    let strangers = [("stranger", w.users[0].clone()), ("deployer", deployer.clone()), ("a contract account", w.hostile.clone()), ("the pool manager to be", w.pm.clone())];
+    for (who, a) in strangers.iter() {
+        for full in [false, true] {
+            let msg = fm::ExecuteMsg::UpdateConfig {
+                fee_collector_addr: if full { Some(a.to_string()) } else { None },
+                epoch_manager_addr: if full { Some(w.em.to_string()) } else { None },
+                pool_manager_addr: Some(a.to_string()),
+                create_farm_fee: if full { Some(coin(0, "uom")) } else { None },
+                max_concurrent_farms: if full { Some(9) } else { None },
+                max_farm_epoch_buffer: None,
+                min_unlocking_duration: None,
+                max_unlocking_duration: None,
+                farm_expiration_time: None,
+                emergency_unlock_penalty: if full { Some(Decimal::zero()) } else { None },
+            };
+            let out = w.exec(a, &fresh, &msg, &[]);
+            let cfg1: Result<fm::Config, String> = w.query(&fresh, &fm::QueryMsg::Config {});
+            if out.is_ok() || cfg1 != cfg0 {
+                rep.failed("unauthorised_rejected", None, format!("freshly deployed farm manager (pool manager not wired yet): UpdateConfig naming a pool manager from {who} accepted={} config changed={}", out.is_ok(), cfg1 != cfg0), witness(json!({"sender": who, "all_fields": full, "config_after": format!("{cfg1:?}")})));
+                return;
+            }
+            rep.held("unauthorised_rejected", hash_of(&("fresh", who, full)), || json!({"state": "farm manager just deployed, pool manager address empty", "sender": who, "message": "UpdateConfig naming a pool manager", "other_fields_too": full, "result": out.short()}));
+        }
+    }
+    // and the owner can
+    let out = w.exec(&owner, &fresh, &fm::ExecuteMsg::UpdateConfig { fee_collector_addr: None, epoch_manager_addr: None, pool_manager_addr: Some(w.pm.to_string()), create_farm_fee: None, max_concurrent_farms: None, max_farm_epoch_buffer: None, min_unlocking_duration: None, max_unlocking_duration: None, farm_expiration_time: None, emergency_unlock_penalty: None }, &[]);
+    if out.is_ok() {
+        rep.held("matrix", hash_of(&"fresh_owner_wires"), || json!({"state": "farm manager just deployed", "sender": "owner", "message": "UpdateConfig naming the pool manager", "result": "ok"}));
+    } else {
+        rep.failed("matrix", None, format!("the owner could not wire the pool manager into a freshly deployed farm manager: {}", out.short()), witness(json!({})));
+    }
+}
+
 pub fn run_matrix(cfg: &RunCfg) -> Reporter {
     let all = all_preps();
     let picked: Vec<(usize, Prep)> = if cfg.thorough() {
@@ -680,5 +749,6 @@ pub fn run_matrix(cfg: &RunCfg) -> Reporter {
     for (i, p) in &picked {
         rep.count("matrix", &format!("prepared state {i}: {p:?}"));
     }
+    fresh_deployment(&mut rep);
     rep
 }
